@@ -183,7 +183,7 @@ func (f Finding) Describe() string { return fmt.Sprintf("%s (%s)", f.Key, f.What
 //	      go1.23): dst orders a TypeSpec's parts Name, '=', TypeParams, Type, so decorations next
 //	      to the '=' or the type parameter list are emitted at the wrong side of the list.
 //	KF-4: a comment group (as go/parser groups them) of two or more comments, one of them a
-//	      multi-line /* */ comment or a // comment, that starts behind a token on the same line. go/printer keeps
+//	      multi-line /* */ comment or a // comment, that starts behind a token on the same line or is followed by one on the line where it ends. go/printer keeps
 //	      a group containing a newline behind the following ',' (it must not move across an
 //	      implied semicolon); dst restores every comment as its own group, so the single-line
 //	      members are flushed before the comma: `for a,/*c*/ /* m\n */b := range x` comes back
@@ -253,6 +253,9 @@ func genericAlias(src []byte) bool {
 	return found
 }
 
+// InlineCommentGroup is the input-only predicate of open finding KF-4.
+func InlineCommentGroup(src []byte) bool { return inlineGroupWithMultiLineComment(src) }
+
 func inlineGroupWithMultiLineComment(src []byte) bool {
 	fset, f, err := oracle.Parse(src)
 	if err != nil {
@@ -272,10 +275,19 @@ func inlineGroupWithMultiLineComment(src []byte) bool {
 		if !multi {
 			continue
 		}
-		// does the group start behind a token on its line?
+		// does the group start behind a token on its line, or is it followed by one on the line
+		// where it ends?
 		off := tf.Offset(g.Pos())
 		ls := tf.Offset(tf.LineStart(tf.PositionFor(g.Pos(), false).Line)) // physical line: ignore //line directives
 		if strings.TrimSpace(string(src[ls:off])) != "" {
+			return true
+		}
+		end := tf.Offset(g.End())
+		le := end
+		for le < len(src) && src[le] != '\n' {
+			le++
+		}
+		if strings.TrimSpace(string(src[end:le])) != "" {
 			return true
 		}
 	}
